@@ -55,6 +55,10 @@ func isNotSetValue(v value.Value) bool {
 }
 
 func getRequestHeaderValue(r *http.Request, name string) *value.String {
+	// The request does not exist on this path (e.g. bereq.http.* in vcl_log after an error in vcl_recv)
+	if r == nil {
+		return &value.String{IsNotSet: true}
+	}
 	var key string
 	name, key, _ = strings.Cut(name, ":")
 	v := r.Header.Get(name)
@@ -81,6 +85,9 @@ func getRequestHeaderValue(r *http.Request, name string) *value.String {
 }
 
 func getResponseHeaderValue(r *http.Response, name string) *value.String {
+	if r == nil {
+		return &value.String{IsNotSet: true}
+	}
 	var key string
 	name, key, _ = strings.Cut(name, ":")
 	v := r.Header.Get(name)
